@@ -174,6 +174,7 @@ def run_spec(spec):
     mgr._release_semaphore = counted_release
     run.slow_waiting = []
     run.slow_lock = threading.Lock()
+    run.delivering = 0  # completions being delivered right now (the delivering thread counts as a library thread meanwhile)
     futures = {}
     datas = {}
     dests = {}
@@ -260,8 +261,10 @@ def run_spec(spec):
     crng = random.Random(spec['seed'] + 1)
 
     def completer():
-        with watchdog.polling():
-            while not stop.is_set():
+        while not stop.is_set():
+            # (a harness poller only while it looks for something to complete: the delivery itself runs the library's done chain on
+            # this thread, which then counts like any library thread - and the harness owes the delivery until it has returned)
+            with watchdog.polling():
                 with client.lock:
                     pend = [r for r in client.requests if not r.completed]
                 avail = [r for r in pend if not (tspec(r.idx).get('hold') and not exit_began.is_set())]
@@ -282,10 +285,16 @@ def run_spec(spec):
                     r = avail[-1]
                 else:
                     r = crng.choice(avail)
+                with run.slow_lock:
+                    run.delivering += 1
+            try:
                 o = tspec(r.idx)['outcome']
                 # half of the failing / cancelled path downloads fail before the CRT has created its receive file
                 r.no_partial_file = (spec['seed'] + r.idx) % 2 == 0
                 client.complete(r, 'ok' if o == 'ok' else 'error', datas.get(r.idx, b''))
+            finally:
+                with run.slow_lock:
+                    run.delivering -= 1
 
     sth = threading.Thread(target=submit_all, name='vf-crt-submit', daemon=True)
     cths = [threading.Thread(target=completer, name=f'vf-crt-thread{k}', daemon=True) for k in range(spec.get('crt_threads', 1))]
@@ -329,7 +338,8 @@ def run_spec(spec):
             if any(not (tspec(r.idx).get('hold') and not exit_began.is_set()) for r in pend):
                 return True
             with run.slow_lock:
-                return bool(run.slow_waiting)  # ... or a slow on_done is waiting for the harness to let it return
+                # ... or a slow on_done is waiting for the harness to let it return
+                return bool(run.slow_waiting)
 
         r = watchdog.await_or_deadlock(pred, None, log, wall_timeout=40.0, harness_busy=owes)
         if r != 'done':
